@@ -16,8 +16,9 @@ EXPLANATION = (
     "tables: the size constants bound the maximum encoded size computed from each message's field table, the final "
     "block's last packed field is the fixed64 final_block_offset the reader takes from the file's last 8 bytes, and "
     "MAX_BATCH_LEN <= log::MAX_BATCH_SIZE <= BLOCK_SIZE; (C10.5) seal(self) consumes the builder (compile-fail witness "
-    "W4, thorough tier).  ORDER/MUSTPASS/SIBLINGS/ORIGIN + field tables from expanded MIR + const eval.")
-NOT_DECIDED = ("enumeration, seek and lookup correctness of BlockCursor/SstCursor, dividing keys, prefix compression and restart "
+    "W4, thorough tier); (C10.6) divide_keys builds its shortened divider only on paths whose comparisons imply "
+    "`lhs[s] + 1 < rhs[s]` or `lhs[s] < rhs[s] && s + 1 < rhs.len()`, keeps lhs[0..s+1], and uses timestamp 0 only there.  ORDER/MUSTPASS/SIBLINGS/ORIGIN + field tables from expanded MIR + const eval.")
+NOT_DECIDED = ("enumeration, seek and lookup correctness of BlockCursor/SstCursor, minimal_successor_key, prefix compression and restart "
                "arithmetic: value-level over all inputs and cursor programs")
 ASSUMPTIONS = ["prototk encodes each field type within its protobuf maximum size"]
 
@@ -28,6 +29,7 @@ def rules(ctx):
     c103(ctx)
     c104(ctx)
     c105(ctx)
+    c106(ctx)
 
 
 BUILDERS = {
@@ -423,3 +425,123 @@ def c105(ctx):
                     strict = True
         ctx.check(R, f, "scan-while-greater", strict, "the scan steps forward only while target > current key (strict)",
                   "the forward scan also steps over a key equal to the target", pt=p_)
+
+
+def _ix_root(f, tok):
+    m = re.match(r"^\[_(\d+)\]$", tok) if isinstance(tok, str) else None
+    return K.root_local(f, {"k": "copy", "pl": {"l": int(m.group(1)), "p": []}}) if m else None
+
+
+def c106(ctx):
+    """divide_keys(lhs, rhs) must return d with lhs <= d < rhs.  The shortened form d = lhs[..s] ++ [lhs[s] + 1] (timestamp 0) is
+    below rhs exactly when lhs[s] + 1 < rhs[s], or when lhs[s] < rhs[s] and rhs continues past s (d is then at most a proper
+    prefix of rhs).  The rule proves one of the two from the comparisons dominating the shortened branch; the other form must be
+    (lhs, timestamp_lhs) itself."""
+    from blue import bounds as B
+    R = "C10.6"
+    ctx.declare(R, "the dividing key between two blocks is shortened only where the bumped byte stays below the next key")
+    f = ctx.fn(R, "sst::divide_keys")
+    if not f:
+        return
+    bf = B.BF(ctx.prog, f)
+    ext = ctx.calls(R, f, r"alloc::vec::Vec.*::extend_from_slice$", floor=2)
+    short = [p for p in ext if any(re.search(r"slice::index::index$|Index>::index$", c) for c in P.origin_calls(f, P.term_at(f, p)["args"][1]))]
+    full = [p for p in ext if p not in short]
+    ctx.check(R, f, "two-forms", len(short) >= 1 and len(full) >= 1, "divide_keys builds either a shortened bumped prefix or a full copy",
+              "cannot identify the shortened and the full-copy forms of the divider")
+
+    preds = {}
+    for b in f.blocks:
+        for lab, t in b.succs:
+            preds.setdefault(t, []).append((b.idx, lab))
+
+    def atoms(fa):
+        a, rel, b = fa[0], fa[1], fa[2]
+        if rel != "<":
+            return []
+        out = []
+        if b[0] == "pl" and b[1] == 3 and len(b[2]) == 1:
+            j = _ix_root(f, b[2][0])
+            if j is not None and a[0] == "add" and a[2] == ("c", 1) and a[1][0] == "pl" and a[1][1] == 1 and len(a[1][2]) == 1 and _ix_root(f, a[1][2][0]) == j:
+                out.append(("bump-lt", j))
+            if j is not None and a[0] == "pl" and a[1] == 1 and len(a[2]) == 1 and _ix_root(f, a[2][0]) == j:
+                out.append(("lt", j))
+        if b == ("len", ("pl", 3, ())) and a[0] == "add" and a[2] == ("c", 1) and a[1][0] == "pl" and not a[1][2]:
+            out.append(("tail", K.root_local(f, {"k": "copy", "pl": {"l": a[1][1], "p": []}})))
+        return out
+
+    def implied(have):
+        for k, j in have:
+            if k == "bump-lt":
+                return "lhs[s] + 1 < rhs[s]", j
+            if k == "lt" and ("tail", j) in have:
+                return "lhs[s] < rhs[s] and s + 1 < rhs.len()", j
+        return None
+
+    def below_next(pt):
+        """(ok, how, s): on every path to pt the comparisons taken imply  lhs[..s] ++ [lhs[s]+1] < rhs  (paths are followed backwards
+        over acyclic edges; a comparison counts only if none of its operands can change between its edge and pt)."""
+        hows = set()
+
+        def walk(bb, have, seen):
+            r = implied(have)
+            if r:
+                hows.add(r)
+                return True
+            if bb == 0 or (bb, have) in seen or len(seen) > 4000:
+                return False
+            seen = seen | {(bb, have)}
+            ps = preds.get(bb, [])
+            if not ps:
+                return False
+            for q, lab in ps:
+                if P.reach(f, P.ENTRY, [(q, 0)]) is None:
+                    continue
+                h2 = set(have)
+                for fa in bf.edge_facts(q, lab):
+                    if bf.fact_valid((q, lab), pt, [fa[0], fa[2]]):
+                        h2.update(atoms(fa))
+                if not walk(q, frozenset(h2), seen):
+                    return False
+            return True
+        ok = walk(pt[0], frozenset(), frozenset())
+        if ok and len({j for _h, j in hows}) == 1:
+            return True, " or ".join(sorted(h for h, _j in hows)), next(iter(hows))[1]
+        return False, None, None
+
+    for p in short:
+        ok, how, s_ = below_next(p)
+        ctx.check(R, f, "shortened-below-next", ok, "the shortened divider is built only where %s" % how,
+                  "the shortened divider can be built where neither `lhs[s] + 1 < rhs[s]` nor `lhs[s] < rhs[s] && s + 1 < rhs.len()` is known: "
+                  "the divider can equal or exceed the next block's first key, so a seek lands in the wrong block", pt=p)
+        if ok:
+            # the prefix kept is lhs[0 .. s + 1]
+            good = False
+            for src in P.origins(f, P.term_at(f, p)["args"][1], through_calls=False):
+                if src["k"] == "call" and re.search(r"index$", src["callee"]):
+                    for r_ in P.origins(f, src["t"]["args"][1], through_calls=False):
+                        if r_["k"] == "agg" and len(r_["st"]["rv"].get("ops", ())) == 2:
+                            lo, hi = r_["st"]["rv"]["ops"]
+                            tl, th = bf.op_term(lo), bf.op_term(hi)
+                            if tl == ("c", 0) and th[0] == "add" and th[2] == ("c", 1) and th[1][0] == "pl" and \
+                                    K.root_local(f, {"k": "copy", "pl": {"l": th[1][1], "p": []}}) == s_:
+                                good = True
+            ctx.check(R, f, "prefix-extent", good, "the prefix kept is lhs[0 .. s + 1] for the same s", "the kept prefix is not lhs[0 .. s + 1]", pt=p)
+    # the returned timestamp: 0 only with the shortened key, otherwise the left key's own timestamp
+    ret = [(b.idx, j) for b in f.blocks for j, st in enumerate(b.st) if st["s"] == "=" and st["lhs"]["l"] == 0 and not st["lhs"]["p"] and st["rv"]["r"] == "agg"]
+    ctx.floor(R, "divide_keys return tuple", len(ret), 1)
+    for rp in ret:
+        ops = f.blocks[rp[0]].st[rp[1]]["rv"]["ops"]
+        tloc = K.root_local(f, ops[1])
+        stores = [((b.idx, j), st) for b in f.blocks for j, st in enumerate(b.st) if st["s"] == "=" and not st["lhs"]["p"] and st["lhs"]["l"] == tloc]
+        ctx.floor(R, "divider timestamp stores", len(stores), 2)
+        for sp, st in stores:
+            srcs = P.origins(f, st["rv"].get("a"), through_calls=False) if st["rv"]["r"] == "use" else [{"k": "other"}]
+            if all(s_["k"] == "param" and s_["i"] == 2 and not s_["proj"] for s_ in srcs) and srcs:
+                ctx.ok(R, f, "the full-copy divider carries the left key's timestamp", [sp])
+            elif all(s_["k"] == "const" and s_.get("v") == 0 for s_ in srcs) and srcs:
+                ok, how, _s = below_next(sp)
+                ctx.check(R, f, "zero-timestamp-only-shortened", ok, "timestamp 0 (the largest position of a key) is used only with the shortened divider",
+                          "the divider takes timestamp 0 with the unshortened key: (lhs, 0) sorts after every version of lhs and can pass the next block's first key", pt=sp)
+            else:
+                ctx.check(R, f, "divider-timestamp", False, "", "the divider's timestamp is neither 0 nor the left key's timestamp", pt=sp)
